@@ -369,6 +369,9 @@ func checkStream(t *rapid.T, c *cSub, subs []*cSub, pubs [][]map[string][]string
 			}
 			if v == triT {
 				totalT++
+				if c.q.equalInstantOtherSpelling(ev) {
+					lib.Class("TestPubSubConcurrent", "time-equality-across-spellings")
+				}
 			}
 			if ptr < len(r) && r[ptr] == i {
 				ptr++
